@@ -22,6 +22,9 @@
 #define NVAL 4        // leaf values are in [0, NVAL)
 #endif
 namespace MU {
+// value in [0, n) from ceil(log2 n) input bits WITHOUT rejecting inputs: codes >= n denote n-1 (so every replayed /
+// random input vector of the translation validation is a valid one; symbolically nothing is lost, n-1 has two codes)
+static inline unsigned pick(unsigned n) { unsigned v = 0; for (unsigned k = 1, b = 0; k < n; k <<= 1, ++b) v |= (unsigned)vs_nondet_bool() << b; return v < n ? v : n - 1; }
 typedef unsigned Val;
 typedef VATA::MTBDDPkg::OndriksMTBDD<Val> MTBDD;
 typedef VATA::SymbolicVarAsgn Asgn;
@@ -30,7 +33,7 @@ enum { NA = 1u << NV, ALEN = VBASE + NV };
 // reference semantics: v[a] is the value for the total assignment a (bit i of a = value of variable VBASE+i)
 struct Tab {
   Val v[NA];
-  void draw() { for (unsigned a = 0; a < NA; ++a) v[a] = vs_range(NVAL); }
+  void draw() { for (unsigned a = 0; a < NA; ++a) v[a] = pick(NVAL); }
   void fill(Val c) { for (unsigned a = 0; a < NA; ++a) v[a] = c; }
   bool same(const Tab& o) const { bool e = true; for (unsigned a = 0; a < NA; ++a) e = e & (v[a] == o.v[a]); return e; }
   unsigned long code() const { unsigned long c = 0; for (unsigned a = 0; a < NA; ++a) c = c * 8 + v[a]; return c; }
@@ -46,7 +49,7 @@ static inline Asgn totalAsgn(unsigned a, unsigned len = ALEN, unsigned base = VB
 // ternary assignment: t[i] = 0 (variable VBASE+i is 0), 1 (is 1), 2 (don't care)
 struct Cube {
   unsigned t[NV];
-  void draw() { for (unsigned i = 0; i < NV; ++i) t[i] = vs_range(3); }
+  void draw() { for (unsigned i = 0; i < NV; ++i) t[i] = pick(3); }
   Asgn asgn(unsigned len = ALEN, unsigned base = VBASE) const {
     Asgn s(len);
     for (unsigned i = 0; i < NV; ++i) s.SetIthVariableValue(base + i, t[i] == 0 ? Asgn::ZERO : t[i] == 1 ? Asgn::ONE : Asgn::DONT_CARE);
@@ -86,8 +89,8 @@ struct Fun {
   void draw(char s) {
     src = s; dflt = 0;
     if (s == 'T') t.draw();
-    else if (s == 'C' || s == 'D') { c.draw(); value = vs_range(NVAL); if (s == 'D') dflt = vs_range(NVAL); t = c.tab(value, dflt); }
-    else { value = vs_range(NVAL); t.fill(value); dflt = value; }
+    else if (s == 'C' || s == 'D') { c.draw(); value = pick(NVAL); if (s == 'D') dflt = pick(NVAL); t = c.tab(value, dflt); }
+    else { value = pick(NVAL); t.fill(value); dflt = value; }
   }
   MTBDD make(unsigned order = 0) const { return src == 'T' ? build(t, 0, order) : src == 'K' ? MTBDD(value) : MTBDD(c.asgn(), value, dflt); }
 };
@@ -108,5 +111,31 @@ template <class Op> static void projectRef(const Val* tt, unsigned k, unsigned r
     out[i] = !dep ? pl[i] : rm ? comb : pl[i];
     out[half + i] = !dep ? pl[i] : rm ? comb : ph[i];
   }
+}
+
+// value of a path/cube stored in a SymbolicVarAsgn for the total assignment a (positions >= length: unconstrained)
+static inline bool asgnMatches(const Asgn& p, unsigned a)
+{
+  bool m = true;
+  for (unsigned i = 0; i < NV; ++i) if (VBASE + i < p.length()) {
+    char x = p.GetIthVariableValue(VBASE + i);
+    m = m & ((x == Asgn::DONT_CARE) | (x == (((a >> i) & 1) ? Asgn::ONE : Asgn::ZERO)));
+  }
+  return m;
+}
+
+// GetPaths: a partition of the assignment space into cubes, each labelled with the value of the function
+static inline void checkPaths(const MTBDD& f, const Tab& t, bool breakIt = false)
+{
+  MTBDD::SymVarToValueList paths = f.GetPaths();
+  CHECK(paths.size() >= 1 && paths.size() <= NA, 90);
+  unsigned cnt[NA]; bool good[NA];
+  for (unsigned a = 0; a < NA; ++a) { cnt[a] = 0; good[a] = true; }
+  for (const auto& pv : paths) {
+    CHECK(pv.first.length() <= ALEN, 91);
+    for (unsigned i = 0; i < VBASE; ++i) if (i < pv.first.length()) CHECK(pv.first.GetIthVariableValue(i) == Asgn::DONT_CARE, 92);
+    for (unsigned a = 0; a < NA; ++a) { bool m = asgnMatches(pv.first, a); cnt[a] += m; good[a] = good[a] & (!m | (pv.second == t.v[a])); }
+  }
+  for (unsigned a = 0; a < NA; ++a) { CHECK(cnt[a] == (breakIt && a == 1 ? 2u : 1u), 93); CHECK(good[a], 94); }
 }
 }
